@@ -45,6 +45,18 @@ type checkCfg struct {
 	Race             bool           `json:"race"`
 	Tags             string         `json:"tags"`
 	MinDistinct      int            `json:"min_distinct"`
+	// RacePass: a free-running side pass of the same actor bodies (real sync, no
+	// scheduler, -race): the cooperative scheduler's hand-offs are happens-before
+	// edges that blind the race detector, so unsynchronised accesses are looked
+	// for separately. Not the deciding step; runs in the thorough tier (or with
+	// VERIF_RACE_PASS=1).
+	RacePass *racePassCfg `json:"race_pass"`
+}
+
+type racePassCfg struct {
+	Tags     string `json:"tags"`      // build tags of the free-running build (no sync overlay)
+	Run      string `json:"run"`       // test function, e.g. TestRaceFree
+	TimeoutS int    `json:"timeout_s"` // hard limit
 }
 
 type knownFinding struct {
@@ -428,6 +440,24 @@ func main() {
 		violSummaries = append(violSummaries, sum)
 	}
 
+	// 5b. free-running -race side pass
+	var racePass map[string]any
+	if cfg.RacePass != nil && replay == "" && (tier == "thorough" || os.Getenv("VERIF_RACE_PASS") != "") {
+		racePass = runRacePass(id, cfg, buildDir)
+		if n, _ := racePass["race_reports"].(int); n > 0 {
+			v := vk.Violation{Property: id, Clause: "no data race in the free-running pass of the same actor bodies", Site: fmt.Sprint(racePass["first_report_site"]), Class: "data race", Detail: fmt.Sprint(racePass["first_report"]), Count: int64(n)}
+			fp := v.Fingerprint()
+			if _, isKnown := known[fp]; !isKnown {
+				path := filepath.Join(root, "replays", id, fp+".json")
+				os.MkdirAll(filepath.Dir(path), 0o755)
+				b, _ := json.MarshalIndent(map[string]any{"property": id, "fingerprint": fp, "tier": tier, "violation": v, "input": map[string]any{"race_pass": cfg.RacePass.Run}}, "", " ")
+				os.WriteFile(path, b, 0o644)
+				fmt.Printf("VIOLATION property=%s replay=%s\n  clause: %s\n  site: %s\n  detail: %s\n", id, path, v.Clause, v.Site, clip(v.Detail, 1500))
+				newViol++
+			}
+		}
+	}
+
 	// 6. evidence
 	wall := time.Since(t0).Seconds()
 	cov := map[string]any{
@@ -443,6 +473,9 @@ func main() {
 		"notes":               merged.Notes,
 		"violation_summaries": violSummaries,
 		"known_findings_seen": knownSeen,
+	}
+	if racePass != nil {
+		cov["race_pass"] = racePass
 	}
 	if cfg.Level == "model_checking" {
 		cov["states"] = merged.States
@@ -477,6 +510,94 @@ func main() {
 	if len(distinct) < minD || merged.Evaluations == 0 {
 		die(2, "INFRA vacuous exploration: evaluations=%d distinct=%d", merged.Evaluations, len(distinct))
 	}
+}
+
+// runRacePass builds the check package once more without the sync overlay, with
+// the race detector and the configured tags, and runs the free-running test.
+func runRacePass(id string, cfg checkCfg, buildDir string) map[string]any {
+	out := map[string]any{"ran": false}
+	bin := filepath.Join(buildDir, "bin", strings.ToLower(id)+".race.test")
+	bargs := []string{"test", "-c", "-vet=off", "-race", "-o", bin}
+	if cfg.RacePass.Tags != "" {
+		bargs = append(bargs, "-tags", cfg.RacePass.Tags)
+	}
+	// added / replaced files (accessors, VERIF_EXTRA_OVERLAY) without the sync rewriting
+	if cfg.Overlay != nil && len(cfg.Overlay.Add) > 0 {
+		rep := map[string]string{}
+		for k, v := range cfg.Overlay.Add {
+			if !filepath.IsAbs(v) {
+				v = filepath.Join(root, v)
+			}
+			rep[filepath.Join(repo, k)] = v
+		}
+		b, _ := json.Marshal(map[string]any{"Replace": rep})
+		of := filepath.Join(buildDir, "overlay", id, "race-overlay.json")
+		os.MkdirAll(filepath.Dir(of), 0o755)
+		os.WriteFile(of, b, 0o644)
+		bargs = append(bargs, "-overlay", of)
+	}
+	bargs = append(bargs, cfg.Pkg)
+	cmd := exec.Command(goBin(), bargs...)
+	cmd.Dir = root
+	cmd.Env = goEnv()
+	if b, err := cmd.CombinedOutput(); err != nil {
+		out["error"] = "build failed: " + clip(string(b), 800)
+		fmt.Fprintf(os.Stderr, "vcheck: race pass build failed: %v\n%s\n", err, b)
+		return out
+	}
+	limit := time.Duration(cfg.RacePass.TimeoutS) * time.Second
+	if limit == 0 {
+		limit = 5 * time.Minute
+	}
+	c := exec.Command(bin, "-test.run", "^"+cfg.RacePass.Run+"$", "-test.count=1", "-test.v")
+	c.Dir = filepath.Join(root, cfg.Pkg)
+	c.Env = append(goEnv(), "GORACE=halt_on_error=0")
+	var eb bytes.Buffer
+	c.Stdout, c.Stderr = &eb, &eb
+	t0 := time.Now()
+	if err := c.Start(); err != nil {
+		out["error"] = err.Error()
+		return out
+	}
+	done := make(chan error, 1)
+	go func() { done <- c.Wait() }()
+	var werr error
+	select {
+	case werr = <-done:
+	case <-time.After(limit):
+		c.Process.Kill()
+		<-done
+		out["error"] = "killed after the hard limit"
+	}
+	txt := eb.String()
+	n := strings.Count(txt, "WARNING: DATA RACE")
+	out["ran"] = true
+	out["race_reports"] = n
+	out["wall_s"] = time.Since(t0).Seconds()
+	for _, ln := range strings.Split(txt, "\n") {
+		if strings.HasPrefix(ln, "racefree:") {
+			out["summary"] = strings.TrimSpace(strings.TrimPrefix(ln, "racefree:"))
+		}
+	}
+	if n > 0 {
+		i := strings.Index(txt, "WARNING: DATA RACE")
+		rep := txt[i:]
+		if j := strings.Index(rep, "=================="); j > 0 {
+			rep = rep[:j]
+		}
+		out["first_report"] = clip(rep, 3000)
+		site := "unknown"
+		for _, ln := range strings.Split(rep, "\n") {
+			if strings.Contains(ln, "graphql-go-tools") && strings.Contains(ln, "(") {
+				site = strings.TrimSpace(ln)
+				break
+			}
+		}
+		out["first_report_site"] = site
+	} else if werr != nil && out["error"] == nil {
+		out["error"] = "the free-running test failed without a race report: " + clip(tail(txt, 1200), 1200)
+	}
+	return out
 }
 
 // loadCfg reads checks/<id>/check.json (member "driver").
